@@ -133,81 +133,93 @@ def setJSONprops (kv : List (Str × JVal)) (e : Expr) : Expr × Nat :=
   | some (.obj ps) => setProps ps e
   | _ => (e, 0)
 
-mutual
+/-- the `lang` handling at the head of `utils.fromJSON`: explicit field, else the inherited language -/
+def langField (lang : Option Lang) (kv : List (Str × JVal)) : Option Lang × Nat :=
+  match lookup (s "lang") kv with
+  | some (.str x) => if x = s "en" then (some .en, 0) else if x = s "fr" then (some .fr, 0) else (some .en, 1)
+  | some _ => (some .en, 1)
+  | none => (lang, 0)
+
+/-- `Terminal.fromJSON` : `terminal(constType, json["lemma"], lang).setJSONprops(json)` -/
+def decodeTerm (env : Env) (lang1 : Lang) (kind : Str) (kv : List (Str × JVal)) : Option Expr × Nat :=
+  match lookup (s "lemma") kv with
+  | some lj =>
+    match jAtom lj with
+    | some lemma =>
+      let p := mkTerm env lang1 kind lemma
+      let r := setJSONprops kv p.1
+      (some r.1, p.2 + r.2)
+    | none => (none, 1)
+  | none => (none, 1)
+
+/-- `phrase(constType, args, lang).setJSONprops(json)` -/
+def finishPhr (kind : Str) (lang1 : Lang) (kv : List (Str × JVal)) (es : List Expr × Nat) : Option Expr × Nat :=
+  let p := mkPhr kind lang1 es.1
+  let r := setJSONprops kv p.1
+  (some r.1, es.2 + p.2 + r.2)
+
+/-- `dep(args, constType, lang).setJSONprops(json)` -/
+def finishDep (kind : Str) (lang1 : Lang) (kv : List (Str × JVal)) (t : Expr) (ds : List Expr × Nat) : Option Expr × Nat :=
+  let p := mkDep kind lang1 t ds.1
+  let r := setJSONprops kv p.1
+  (some r.1, ds.2 + p.2 + r.2)
+
+def addMsgs (r : Option Expr × Nat) (m : Nat) : Option Expr × Nat := (r.1, m + r.2)
+
+/-- `[f(e) for e in …]` with the `None` results dropped (as `_getElems` does), messages added up -/
+def collect (f : JVal → Option Expr × Nat) : List JVal → List Expr × Nat
+  | [] => ([], 0)
+  | j :: r =>
+    let r1 := f j
+    let r2 := collect f r
+    (match r1.1 with
+     | some e => e :: r2.1
+     | none => r2.1, r1.2 + r2.2)
+
 /-- `utils.fromJSON(json, lang)` while `cur` is the current language; `none` = no Constituent is returned.
     The fuel bounds the nesting depth. -/
 def fromJ (env : Env) (cur : Lang) : Nat → Option Lang → JVal → Option Expr × Nat
   | 0, _, _ => (none, 0)
   | fuel + 1, lang, .obj kv =>
-    let lm : Option Lang × Nat := match lookup (s "lang") kv with
-      | some (.str x) => if x = s "en" then (some .en, 0) else if x = s "fr" then (some .fr, 0) else (some .en, 1)
-      | some _ => (some .en, 1)
-      | none => (lang, 0)
+    let lm := langField lang kv
     let lang1 := lm.1.getD cur
     match lookup (s "phrase") kv with
-    | some k =>
-      match k with
-      | .str kind =>
-        if jsonPhraseKinds.contains kind then
-          match lookup (s "elements") kv with
-          | some (.arr l) =>
-            let es := fromJList env cur fuel lm.1 l
-            let p := mkPhr kind lang1 es.1
-            let r := setJSONprops kv p.1
-            (some r.1, lm.2 + es.2 + p.2 + r.2)
-          | _ => (none, lm.2 + 1)
-        else (none, lm.2 + 1)
-      | _ => (none, lm.2 + 1)
+    | some (.str kind) =>
+      if jsonPhraseKinds.contains kind then
+        match lookup (s "elements") kv with
+        | some (.arr l) => addMsgs (finishPhr kind lang1 kv (collect (fromJ env cur fuel lm.1) l)) lm.2
+        | _ => (none, lm.2 + 1)
+      else (none, lm.2 + 1)
+    | some _ => (none, lm.2 + 1)
     | none =>
       match lookup (s "dependent") kv with
-      | some k =>
-        match k with
-        | .str kind =>
-          if jsonDepKinds.contains kind then
-            match lookup (s "terminal") kv with
-            | some tj =>
-              match fromJ env cur fuel lm.1 tj with
-              | (some t, w1) =>
-                let ds : List Expr × Nat := match lookup (s "dependents") kv with
-                  | some (.arr l) => fromJList env cur fuel lm.1 l
-                  | some _ => ([], 1)
-                  | none => ([], 0)
-                let p := mkDep kind lang1 t ds.1
-                let r := setJSONprops kv p.1
-                (some r.1, lm.2 + w1 + ds.2 + p.2 + r.2)
-              | (none, w1) => (none, lm.2 + w1 + 1)
-            | none => (none, lm.2 + 1)
-          else (none, lm.2 + 1)
-        | _ => (none, lm.2 + 1)
+      | some (.str kind) =>
+        if jsonDepKinds.contains kind then
+          match lookup (s "terminal") kv with
+          | some tj =>
+            match fromJ env cur fuel lm.1 tj with
+            | (some t, w1) =>
+              let ds : List Expr × Nat := match lookup (s "dependents") kv with
+                | some (.arr l) => collect (fromJ env cur fuel lm.1) l
+                | some _ => ([], 1)
+                | none => ([], 0)
+              addMsgs (finishDep kind lang1 kv t ds) (lm.2 + w1)
+            | (none, w1) => (none, lm.2 + w1 + 1)
+          | none => (none, lm.2 + 1)
+        else (none, lm.2 + 1)
+      | some _ => (none, lm.2 + 1)
       | none =>
         match lookup (s "terminal") kv with
-        | some k =>
-          match k with
-          | .str kind =>
-            if jsonTermKinds.contains kind then
-              match lookup (s "lemma") kv with
-              | some lj =>
-                match jAtom lj with
-                | some lemma =>
-                  let p := mkTerm env cur lang1 kind lemma
-                  let r := setJSONprops kv p.1
-                  (some r.1, lm.2 + p.2 + r.2)
-                | none => (none, lm.2 + 1)
-              | none => (none, lm.2 + 1)
-            else (none, lm.2 + 1)
-          | _ => (none, lm.2 + 1)
+        | some (.str kind) =>
+          if jsonTermKinds.contains kind then addMsgs (decodeTerm env lang1 kind kv) lm.2
+          else (none, lm.2 + 1)
+        | some _ => (none, lm.2 + 1)
         | none => (none, lm.2)
   | _ + 1, _, _ => (none, 1)
-/-- `[fromJSON(e, lang) for e in …]` with the `None` results dropped (as `_getElems` does) -/
-def fromJList (env : Env) (cur : Lang) : Nat → Option Lang → List JVal → List Expr × Nat
-  | _, _, [] => ([], 0)
-  | fuel, lang, j :: r =>
-    let r1 := fromJ env cur fuel lang j
-    let r2 := fromJList env cur fuel lang r
-    (match r1.1 with
-     | some e => e :: r2.1
-     | none => r2.1, r1.2 + r2.2)
-end
+
+/-- `[fromJSON(e, lang) for e in …]` -/
+def fromJList (env : Env) (cur : Lang) (fuel : Nat) (lang : Option Lang) (l : List JVal) : List Expr × Nat :=
+  collect (fromJ env cur fuel lang) l
 
 mutual
 def JVal.depth : JVal → Nat
@@ -304,24 +316,34 @@ def hexVal (c : Char) : Option Nat :=
   else if 'A' ≤ c && c ≤ 'F' then some (c.toNat - 55)
   else none
 
+/-- the character an escape letter stands for -/
+def unescJ (e : Char) : Option Char :=
+  if e = '"' then some '"' else if e = '\\' then some '\\' else if e = '/' then some '/'
+  else if e = 'n' then some '\n' else if e = 'r' then some '\r' else if e = 't' then some '\t'
+  else if e = 'b' then some (Char.ofNat 8) else if e = 'f' then some (Char.ofNat 12) else none
+
 /-- the body of a string literal, after the opening quote: (content, rest after the closing quote) -/
 def readJStr : Str → Option (Str × Str)
   | [] => none
-  | '"' :: r => some ([], r)
-  | '\\' :: 'u' :: a :: b :: c :: d :: r =>
-    match hexVal a, hexVal b, hexVal c, hexVal d, readJStr r with
-    | some a, some b, some c, some d, some (x, rest) => some (Char.ofNat (((a * 16 + b) * 16 + c) * 16 + d) :: x, rest)
-    | _, _, _, _, _ => none
-  | '\\' :: e :: r =>
-    let ch : Option Char :=
-      if e = '"' then some '"' else if e = '\\' then some '\\' else if e = '/' then some '/'
-      else if e = 'n' then some '\n' else if e = 'r' then some '\r' else if e = 't' then some '\t'
-      else if e = 'b' then some (Char.ofNat 8) else if e = 'f' then some (Char.ofNat 12) else none
-    match ch, readJStr r with
-    | some c, some (x, rest) => some (c :: x, rest)
-    | _, _ => none
   | c :: r =>
-    if c.toNat < 32 then none
+    if c = '"' then some ([], r)
+    else if c = '\\' then
+      match r with
+      | [] => none
+      | e :: r1 =>
+        if e = 'u' then
+          match r1 with
+          | a :: b :: c :: d :: r2 =>
+            match hexVal a, hexVal b, hexVal c, hexVal d, readJStr r2 with
+            | some a, some b, some c, some d, some (x, rest) =>
+              some (Char.ofNat (((a * 16 + b) * 16 + c) * 16 + d) :: x, rest)
+            | _, _, _, _, _ => none
+          | _ => none
+        else
+          match unescJ e, readJStr r1 with
+          | some ch, some (x, rest) => some (ch :: x, rest)
+          | _, _ => none
+    else if c.toNat < 32 then none
     else match readJStr r with
       | some (x, rest) => some (c :: x, rest)
       | none => none
@@ -334,23 +356,26 @@ def readJV : Nat → Str → Option (JVal × Str)
   | 0, _ => none
   | fuel + 1, x =>
     match skipWs x with
-    | 'n' :: 'u' :: 'l' :: 'l' :: r => some (.null, r)
-    | 't' :: 'r' :: 'u' :: 'e' :: r => some (.bool true, r)
-    | 'f' :: 'a' :: 'l' :: 's' :: 'e' :: r => some (.bool false, r)
-    | '"' :: r => (readJStr r).map (fun p => (.str p.1, p.2))
-    | '[' :: r =>
-      match skipWs r with
-      | ']' :: r' => some (.arr [], r')
-      | r' => (readJItems fuel r').map (fun p => (.arr p.1, p.2))
-    | '{' :: r =>
-      match skipWs r with
-      | '}' :: r' => some (.obj [], r')
-      | r' => (readJMembers fuel r').map (fun p => (.obj p.1, p.2))
-    | '-' :: c :: r =>
-      if isDigit c then let p := readNat (c :: r); some (.int (-(p.1 : Int)), p.2) else none
-    | c :: r =>
-      if isDigit c then let p := readNat (c :: r); some (.int p.1, p.2) else none
     | [] => none
+    | c :: r =>
+      if c = '"' then (readJStr r).map (fun p => (.str p.1, p.2))
+      else if c = '[' then
+        match skipWs r with
+        | ']' :: r' => some (.arr [], r')
+        | r' => (readJItems fuel r').map (fun p => (.arr p.1, p.2))
+      else if c = '{' then
+        match skipWs r with
+        | '}' :: r' => some (.obj [], r')
+        | r' => (readJMembers fuel r').map (fun p => (.obj p.1, p.2))
+      else if c = '-' then
+        match r with
+        | d :: _ => if isDigit d then let p := readNat r; some (.int (-(p.1 : Int)), p.2) else none
+        | [] => none
+      else if isDigit c then let p := readNat (c :: r); some (.int p.1, p.2)
+      else if startsWith (c :: r) (s "null") then some (.null, (c :: r).drop 4)
+      else if startsWith (c :: r) (s "true") then some (.bool true, (c :: r).drop 4)
+      else if startsWith (c :: r) (s "false") then some (.bool false, (c :: r).drop 5)
+      else none
 /-- `v (, v)* ]` -/
 def readJItems : Nat → Str → Option (List JVal × Str)
   | 0, _ => none
@@ -359,29 +384,37 @@ def readJItems : Nat → Str → Option (List JVal × Str)
     | none => none
     | some (v, r) =>
       match skipWs r with
-      | ',' :: r' => (readJItems fuel r').map (fun p => (v :: p.1, p.2))
-      | ']' :: r' => some ([v], r')
-      | _ => none
+      | [] => none
+      | c :: r' =>
+        if c = ',' then (readJItems fuel r').map (fun p => (v :: p.1, p.2))
+        else if c = ']' then some ([v], r')
+        else none
 /-- `"k": v (, "k": v)* }` -/
 def readJMembers : Nat → Str → Option (List (Str × JVal) × Str)
   | 0, _ => none
   | fuel + 1, x =>
     match skipWs x with
-    | '"' :: r =>
-      match readJStr r with
-      | none => none
-      | some (k, r1) =>
-        match skipWs r1 with
-        | ':' :: r2 =>
-          match readJV fuel r2 with
-          | none => none
-          | some (v, r3) =>
-            match skipWs r3 with
-            | ',' :: r4 => (readJMembers fuel r4).map (fun p => ((k, v) :: p.1, p.2))
-            | '}' :: r4 => some ([(k, v)], r4)
-            | _ => none
-        | _ => none
-    | _ => none
+    | [] => none
+    | q :: r =>
+      if q = '"' then
+        match readJStr r with
+        | none => none
+        | some (k, r1) =>
+          match skipWs r1 with
+          | [] => none
+          | c :: r2 =>
+            if c = ':' then
+              match readJV fuel r2 with
+              | none => none
+              | some (v, r3) =>
+                match skipWs r3 with
+                | [] => none
+                | c' :: r4 =>
+                  if c' = ',' then (readJMembers fuel r4).map (fun p => ((k, v) :: p.1, p.2))
+                  else if c' = '}' then some ([(k, v)], r4)
+                  else none
+            else none
+      else none
 end
 
 /-- `json.loads(text)` -/
